@@ -115,7 +115,9 @@ def _gen_lifespan(rng, i):
 
 def _gen_redirect(rng, i):
     host = rng.choice(["example.com", "example.com:8080", "[2001:db8::1]:8443", "xn--bcher-kva.example"])
-    raw_path = rng.choice([b"/", b"/abc", b"/abc%3C", b"/a/b%20c", b"/%E2%82%AC", b"/a;p=1", b"/~user/", b"/a%2Fb"])
+    raw_path = rng.choice([b"/", b"/abc", b"/abc%3C", b"/a/b%20c", b"/%E2%82%AC", b"/a;p=1", b"/~user/", b"/a%2Fb",
+                           # targets a URL *resolver* would rewrite: the redirect is to the same path, not to what it resolves to
+                           b"//evil.example/login", b"/a/../b", b"/a/./b/", b"/..", b"/a//b", b"/a/..%2f../c"])
     query = rng.choice([b"", b"x=1", b"a=b&c=d%20e", b"q=%3F"])
     root = rng.choice(["", "", "/root", "/app/v1"])
     stype = rng.choice(["http", "websocket"])
